@@ -95,7 +95,14 @@ def oracle21(case, ans):
                 fails.append("%s: checkpoint() failed with %s" % (where, res))
         if k == "corrupt" and res == "ok":
             corrupted = True
-        # ids keep increasing: an id that appears for the first time is above every id seen before
+        # ids keep increasing: the checkpoint a completed checkpoint() wrote carries an id above every id stored before
+        if k in ("save", "savecrash") and res.startswith("ok"):
+            mine = [fid for fid, full in finals if full is not None and full[1] == e[1]]
+            if len(mine) != 1:
+                fails.append("%s: the checkpoint just acknowledged is stored %d times (files %s)" % (where, len(mine), s["files"]))
+            elif mine[0] <= max_seen:
+                fails.append("%s: acknowledged checkpoint got id %d, ids up to %d were used before" % (where, mine[0], max_seen))
+        # ... and any id that appears for the first time is above every id seen before
         for fid, full in sorted(finals):
             if fid not in seen_ids:
                 if fid <= max_seen:
